@@ -98,6 +98,11 @@ def run_vt(D):
 CONS = {"ball": cons_ball, "half": cons_half, "logball": cons_logball, "loghalf": cons_loghalf,
         "run:ball": run_cons_ball, "run:half": run_cons_half}
 RUN_CONS = {"ball": run_cons_ball, "half": run_cons_half}
+# the same regions reported differently: violations as TINY positive numbers (any value > 0 is a violation) and as booleans
+CONS["tiny:logball"] = lambda X: cons_logball(X) * 1e-9
+CONS["tiny:loghalf"] = lambda X: cons_loghalf(X) * 1e-10
+CONS["bool:logball"] = lambda X: cons_logball(X) > 0
+CONS_BASE = {"tiny:logball": cons_logball, "tiny:loghalf": cons_loghalf, "bool:logball": cons_logball}
 _VT = {}
 
 
@@ -182,7 +187,7 @@ def violated_fn(c):
 
 def cons_margin(c, rows):
     vt = get_vt(c["vt"], c["D"])
-    fn = CONS[c["cons"]]
+    fn = CONS_BASE.get(c["cons"], CONS[c["cons"]])
     return min([abs(float(fn(vt.inverse_transf(np.array(r, dtype=float).reshape(1, -1)))[0])) for r in rows] or [1.0])
 
 
@@ -562,7 +567,7 @@ def table_case(rng, i):
         ub = [v if rng.random() < 0.8 else math.floor(v) + 0.0 for v in ubI]
         log = [list(rng.choice(U)) for _ in range(rng.choice([0, 1, 2]))]
         c = dict(stream="table", D=D, U=U, lb=lb, ub=ub, proj=proj, tol=rng.choice([step, 2 * step, step / 4, 2.0 ** -19]),
-                 cons=rng.choice(["logball", "loghalf"]), vt="log", log=log)
+                 cons=rng.choice(["logball", "loghalf", "tiny:logball", "tiny:loghalf", "bool:logball"]), vt="log", log=log)
         rows = [clamp_row(u, lb, ub) for u in U] + U
         if cons_margin(c, rows) > 1e-9:
             return c
